@@ -473,13 +473,27 @@ func runC09(idx int, rng *rand.Rand, tier string) []Case {
 	default:
 		enc = vegeta.NewJSONEncoder(ow)
 	}
+	// a result the JSON encoder refuses (a year beyond 9999 cannot be written as RFC 3339) in the middle
+	// of the stream: a refused Encode call writes no record, and whatever later calls accept must again
+	// be whole records - the stream stays the sequence of the results whose Encode returned nil
+	refusedAt := -1
+	if f == 2 && (idx%30 == 8 || idx%30 == 20) && n > 2 {
+		refusedAt = 1 + rng.Intn(n-2)
+		rs[refusedAt].Timestamp = time.Date(10000+rng.Intn(300), 3, 1, 12, 0, 0, 0, time.UTC)
+	}
 	var offs []int64
+	var written []vegeta.Result
 	for i := range rs {
 		if err := enc.Encode(&rs[i]); err != nil {
-			panic(err)
+			if refusedAt < 0 || i < refusedAt {
+				panic(err)
+			}
+			continue
 		}
+		written = append(written, rs[i])
 		offs = append(offs, int64(ow.buf.Len()))
 	}
+	rs, n = written, len(written)
 	b := ow.buf.Bytes()
 	// every Encode call must leave a stream that is a whole number of records: checked by the cuts at the offsets
 	var c Case
